@@ -210,6 +210,7 @@ int main(int argc, char** argv) {
       scen.push_back({"S5 kernel pair", {(int)a, (int)a}});
   const int bound = th ? 3 : 2;
   ctx.parallel(scen.size(), [&](uint64_t si) {
+    alloc_track().recycle = 1;  // freed blocks are handed out again (bounded memory over thousands of schedules; address reuse is an environment answer)
     const Scenario& sc = scen[si];
     std::string id = "sched|" + sc.name;
     for (int k : sc.ops) id += " | " + L.ops[k].name;
